@@ -65,12 +65,16 @@ def scenario(seed, n_clients, n_hosts, M, max_count):
                     held.pop(id(conn), None); per_host[host] -= 1
                     pool.no_wait_release(conn)                                                  # what BaseSession.recycle / abort do
         tasks = [asyncio.ensure_future(client(i)) for i in range(n_clients)]
-        # cancellations at seeded moments
+        # cancellations at seeded moments; remote closes of IDLE (parked, not held) connections while at least two clients are still at work, so that at least one
+        # check-in follows every such close
         for _ in range(rnd.randrange(0, 12)):
             await asyncio.sleep(0)
             if rnd.random() < 0.25:
                 t = rnd.choice(tasks)
                 if not t.done(): t.cancel()
+            if rnd.random() < 0.3 and sum(1 for t in tasks if not t.done()) >= 2:
+                idle = [c for hp in pool.host_pools.values() for c in hp.ready]
+                if idle: rnd.choice(idle).close()
         done, pending = await asyncio.wait(tasks, timeout=2.0)
         if pending:
             problems.append('%d client(s) still waiting after 2 s although %d connection(s) are checked out (stuck: no one will wake them)' % (len(pending), len(held)))
@@ -80,10 +84,22 @@ def scenario(seed, n_clients, n_hosts, M, max_count):
             if t.cancelled(): continue
             e = t.exception()
             if e is not None and not isinstance(e, asyncio.CancelledError): problems.append('a client ended with %s: %s' % (type(e).__name__, str(e)[:80]))
-        # drain the releases that were still in flight, the deferred releases, and clean
+        # drain the releases that were still in flight and the deferred releases
         try:
             if releases: await asyncio.wait_for(asyncio.gather(*releases, return_exceptions=True), 2.0)
             await asyncio.wait_for(asyncio.ensure_future(pool._process_no_wait_releases()), 2.0)
+        except asyncio.TimeoutError:
+            problems.append('the deferred check-ins never complete (a lock is still held)'); return
+        except Exception as e:
+            problems.append('draining the deferred check-ins raised %s: %s' % (type(e).__name__, str(e)[:80])); return
+        # "once all clients have finished ... per-host bookkeeping for idle hosts is dropped": checked BEFORE any explicit clean -- every host that is still kept must
+        # have a live idle connection (kept for reuse); a host whose connections are all gone or dead, and that nobody waits for, must be gone
+        if any(not t.cancelled() and t.exception() is None for t in done):      # at least one client completed, i.e. at least one check-in ran after the closes above
+            for key, hp in pool.host_pools.items():
+                live = [c for c in hp.ready if not c.closed()]
+                if not live and not hp.busy and not getattr(pool, '_host_pool_waiters', {}).get(key):
+                    problems.append('all clients have finished, yet bookkeeping for the idle host %r is kept: %d dead idle connection(s), no live one, nobody waiting' % (key, len(hp.ready)))
+        try:
             await asyncio.wait_for(asyncio.ensure_future(pool.clean(force=True)), 2.0)
         except asyncio.TimeoutError:
             problems.append('final clean() never completes (a lock is still held)'); return
